@@ -5,11 +5,9 @@
     model's on a clause the checker tests is a violation of the property. *)
 From Coq Require Import ZArith List Bool Lia.
 From Low Require Import Lib.MachInt Lib.Bits Lib.BitSeq Model.TailBitmap
-  Spec.TailBitmapSpec Spec.TailBitmapInv Proofs.TailBitmapProofs Proofs.TailBitmapHist Run.C15.
+  Spec.TailBitmapSpec Spec.TailBitmapInv Spec.TailBitmapObs Proofs.TailBitmapProofs Proofs.TailBitmapHist Run.C15.
 Import ListNotations.
 Open Scope Z_scope.
-
-Definition memP (H : hist) (j : Z) : Prop := memH H j = true.
 
 Lemma memH_cons a b H j : memH ((a, b) :: H) j = ((a <=? j) && (j <? b)) || memH H j.
 Proof. reflexivity. Qed.
